@@ -361,7 +361,35 @@ def r3_accumulation(ctx):
     for rel, q, want in ((SU, "Substance.__mul__", "return self._multiply(Substance(natural=self.natural), other)"),
                          (SU, "Substance.__add__", "return self._add(Substance(natural=self.natural), other)")):
         fn = ctx.fn(rel, q)
+        # positive evidence first: an arithmetic method that hands back one of its operands (a `return self` fast path
+        # for a factor of one, `return other` for an empty left side) makes the result and the operand one object, and
+        # a later add() on either changes both
+        params = {a.arg for a in fn.args.args}
+        handed = [norm(r_) for r_ in walk_no_nested(fn) if isinstance(r_, ast.Return) and isinstance(r_.value, ast.Name) and r_.value.id in params]
+        if handed:
+            ctx.violated(rel, q, "the result of arithmetic is a new object, never an operand", detail=handed[0], expected=want)
+            continue
         ctx.form([norm(x) for x in K.body_nodoc(fn)] == [want], rel, q, "arithmetic builds a fresh substance in the same isotope mode")
+    # the same for every arithmetic method of the three classes
+    nar = 0
+    for rel, cname in ((EL, "Element"), (SU, "Substance"), (MA, "Material"), (CO, "Composite")):
+        try:
+            c_ = ctx.repo.cls(rel, cname)
+        except Exception:
+            continue
+        for mname in ("__mul__", "__rmul__", "__add__", "__radd__", "_add", "_multiply"):
+            fn = methods(c_).get(mname)
+            if fn is None or (cname == "Substance" and mname in ("__mul__", "__add__")):
+                continue
+            nar += 1
+            params = [a.arg for a in fn.args.args]
+            operands = set(params) if mname.startswith("__") else {params[0]} | set(params[2:])   # _add/_multiply fill their second parameter, the fresh composite
+            handed = [norm(r_) for r_ in walk_no_nested(fn) if isinstance(r_, ast.Return) and isinstance(r_.value, ast.Name) and r_.value.id in operands]
+            if handed:
+                ctx.violated(rel, f"{cname}.{mname}", "the result of arithmetic is a new object, never an operand", detail=handed[0], expected="a new composite / element")
+            else:
+                ctx.holds(rel, f"{cname}.{mname}", "the result of arithmetic is a new object, never an operand")
+    ctx.floor("arithmetic methods of the materials classes", nar, 6)
     # the isotope mode travels with every object arithmetic creates: a constructor call of the own class inside
     # __mul__/__add__/__rmul__ names `natural=self.natural` (the default would silently switch the copy to natural means)
     nmode = 0
